@@ -22,6 +22,27 @@ import (
 const c23Contract = `
 access(all) contract Z {
     access(all) let pad: String
+    access(all) let longpad: String
+
+    // dictionary keys too large to be inlined in the map slab (own StorableSlab): long strings and huge integers
+    access(all) fun longKey(_ k: Int): String {
+        let lens = [300, 700, 2000]
+        return k.toString().concat(":").concat(self.longpad.slice(from: 0, upTo: lens[k % 3]))
+    }
+    access(all) fun bigKey(_ k: Int): Int { return (1 << 4000) + k }
+    access(all) fun bigUKey(_ k: Int): UInt { return (UInt(1) << 3000) + UInt(k) }
+    access(all) fun longKeyDict(_ n: Int, _ m: Int, _ big: Bool): {String: [String]} {
+        var d: {String: [String]} = {}
+        var i = 0
+        while i < n { d[self.longKey(i)] = self.arr1(m, big); i = i + 1 }
+        return d
+    }
+    access(all) fun bigKeyDict(_ n: Int): {Int: String} {
+        var d: {Int: String} = {}
+        var i = 0
+        while i < n { d[self.bigKey(i)] = i.toString(); i = i + 1 }
+        return d
+    }
 
     access(all) fun str(_ n: Int, _ big: Bool): String {
         if big { return n.toString().concat(":").concat(self.pad) }
@@ -204,6 +225,9 @@ access(all) contract Z {
         var p = "0123456789"
         while p.length < 1100 { p = p.concat(p) }
         self.pad = p
+        var q = "abcdefghij"
+        while q.length < 2000 { q = q.concat(q) }
+        self.longpad = q
     }
 }`
 
@@ -241,7 +265,7 @@ func (g *c23gen) op() (string, string) {
 	qn := fmt.Sprintf("/storage/n%d", g.r.IntN(2))
 	k := g.r.IntN(7)
 	idx := g.r.IntN(50)
-	switch g.r.IntN(36) {
+	switch g.r.IntN(44) {
 	case 0, 1:
 		return fmt.Sprintf("if %s.storage.type(at: %s) == nil { %s.storage.save(<- %s, to: %s) }", A, pn, A, g.tree(), pn), "node-save"
 	case 2:
@@ -329,6 +353,37 @@ func (g *c23gen) op() (string, string) {
             if %[3]d %% 3 == 0 { let w%[1]d = attach Z.SAtt() to t%[1]d; %[6]s.storage.load<Z.SNode>(from: /storage/s); %[6]s.storage.save(w%[1]d, to: /storage/s) }
             else { %[6]s.storage.load<Z.SNode>(from: /storage/s); %[6]s.storage.save(t%[1]d, to: /storage/s) }
         }`, i, A, idx, g.sz(), g.b(), B), "struct-tree-load-mutate-save-other-account"
+	case 35:
+		return fmt.Sprintf("%[1]s.storage.load<{String: [String]}>(from: /storage/dk)\n        %[1]s.storage.save(Z.longKeyDict(%[2]d, %[3]d, %[4]s), to: /storage/dk)", A, g.r.IntN(8), g.sz()%6, g.b()), "longkey-dict-overwrite"
+	case 36, 37:
+		return fmt.Sprintf(`if let r%[1]d = %[2]s.storage.borrow<auth(Mutate) &{String: [String]}>(from: /storage/dk) {
+            r%[1]d[Z.longKey(%[3]d)] = Z.arr1(%[4]d, %[5]s)
+            r%[1]d.remove(key: Z.longKey(%[6]d))
+            r%[1]d[Z.longKey(%[7]d)] = nil
+            let o%[1]d = r%[1]d.insert(key: Z.longKey(%[8]d), ["x"])
+        } else { %[2]s.storage.save(Z.longKeyDict(3, 1, false), to: /storage/dk) }`, i, A, k, g.sz()%6, g.b(), g.r.IntN(7), g.r.IntN(7), g.r.IntN(7)), "longkey-dict-insert-remove-through-ref"
+	case 38, 39:
+		return fmt.Sprintf(`if let r%[1]d = %[2]s.storage.borrow<auth(Mutate) &{Int: String}>(from: /storage/dbi) {
+            r%[1]d[Z.bigKey(%[3]d)] = "v%[3]d"
+            r%[1]d.remove(key: Z.bigKey(%[4]d))
+            r%[1]d[Z.bigKey(%[5]d)] = nil
+        } else { %[2]s.storage.save(Z.bigKeyDict(%[6]d), to: /storage/dbi) }`, i, A, k, g.r.IntN(7), g.r.IntN(7), 1+g.r.IntN(6)), "bigintkey-dict-insert-remove-through-ref"
+	case 40:
+		return fmt.Sprintf(`if let d0%[1]d = %[2]s.storage.load<{String: [String]}>(from: /storage/dk) {
+            var d%[1]d = d0%[1]d
+            d%[1]d.remove(key: Z.longKey(%[3]d))
+            d%[1]d[Z.longKey(%[4]d)] = nil
+            d%[1]d[Z.longKey(%[5]d)] = Z.arr1(2, %[6]s)
+            %[7]s.storage.load<{String: [String]}>(from: /storage/dk)
+            %[7]s.storage.save(d%[1]d, to: /storage/dk)
+        }`, i, A, k, g.r.IntN(7), g.r.IntN(7), g.b(), B), "longkey-dict-load-remove-save-other-account"
+	case 41:
+		return fmt.Sprintf("if let t%[1]d = %[2]s.storage.borrow<&Z.Node>(from: %[3]s) { if %[4]d %% 2 == 0 { t%[1]d.putDict(Z.longKey(%[5]d), <- %[6]s) } else { destroy t%[1]d.takeDict(Z.longKey(%[5]d)) } }", i, A, pn, idx, k%4, g.tree()), "node-dict-longkey-put-or-take"
+	case 42:
+		return fmt.Sprintf(`if let r%[1]d = %[2]s.storage.borrow<auth(Mutate) &{UInt: [Int]}>(from: /storage/dbu) {
+            r%[1]d[Z.bigUKey(%[3]d)] = [1, 2, 3]
+            r%[1]d.remove(key: Z.bigUKey(%[4]d))
+        } else { %[2]s.storage.save({Z.bigUKey(0): [0], Z.bigUKey(1): [1]}, to: /storage/dbu) }`, i, A, k, g.r.IntN(7)), "biguintkey-dict-insert-remove-through-ref"
 	case 29:
 		return fmt.Sprintf(`%[1]s.storage.load<[Z.SNode]>(from: /storage/sa)
         var sa%[2]d: [Z.SNode] = []
@@ -440,6 +495,7 @@ func init() {
 			"op_node-attach-or-remove-attachment": 60, "op_attachment-grow-through-ref": 60, "op_dict1-mutation-through-ref": 60, "op_dict2-replace-child-through-ref": 60,
 			"op_node-graft-kid": 60, "op_node-dict-replace": 60, "op_node-replace-optional-field": 60, "op_struct-tree-load-mutate-save-other-account": 60,
 			"op_structarr-replace-element-through-ref": 50, "op_node-struct-field-overwrite": 50, "op_structdict-replace-through-ref": 50, "op_structarr-overwrite": 50,
+			"op_longkey-dict-insert-remove-through-ref": 60, "op_bigintkey-dict-insert-remove-through-ref": 60, "op_longkey-dict-load-remove-save-other-account": 30, "op_node-dict-longkey-put-or-take": 30,
 			"op_array2-overwrite": 60, "op_array3-overwrite": 60, "op_dict1-overwrite": 60, "op_dict2-overwrite": 60, "op_struct-tree-overwrite": 60,
 		},
 		Run: c23Run,
